@@ -276,7 +276,7 @@ func (wd *world) eventOf(x rawEvent) ev {
 	case "RelBegin", "RelEnd", "Release":
 		return ev{"op": x.op, "tid": x.ts[0].tid}
 	case "Bcast":
-		return ev{"op": "Bcast", "tid": x.ts[0].tid, "r": x.r, "misordered": x.misordered}
+		return ev{"op": "Bcast", "tid": x.ts[0].tid, "r": x.r, "misordered": x.misordered, "pre": false}
 	case "Mine":
 		return ev{"op": "Mine"}
 	case "Obs":
